@@ -129,9 +129,9 @@ Variables x y : list line.
 
 Lemma expand_back_spec : forall sx0 sy0 dx dy mx my,
   sx0 <= mx -> sy0 <= my -> mx <= length x -> my <= length y ->
-  dx <= sx0 -> dy <= sy0 -> mx - sx0 = my - sy0 -> sub x sx0 mx = sub y sy0 my ->
+  dx <= sx0 -> dy <= sy0 -> mx + sy0 = my + sx0 -> sub x sx0 mx = sub y sy0 my ->
   exists stx sty, expand_back x y dx dy sx0 sy0 = Ok (stx, sty) /\
-    dx <= stx /\ stx <= mx /\ dy <= sty /\ sty <= my /\ mx - stx = my - sty /\
+    dx <= stx /\ stx <= mx /\ dy <= sty /\ sty <= my /\ mx + sty = my + stx /\
     sub x stx mx = sub y sty my.
 Proof.
   induction sx0 as [|s IH]; intros sy0 dx dy mx my H1 H2 H3 H4 H5 H6 H7 H8.
@@ -154,10 +154,10 @@ Proof.
 Qed.
 
 Lemma expand_fwd_spec : forall fuel ex0 ey0 mx my,
-  length x - ex0 <= fuel -> mx <= ex0 -> my <= ey0 -> ex0 <= length x -> ey0 <= length y ->
-  ex0 - mx = ey0 - my -> sub x mx ex0 = sub y my ey0 ->
+  length x <= fuel + ex0 -> mx <= ex0 -> my <= ey0 -> ex0 <= length x -> ey0 <= length y ->
+  ex0 + my = ey0 + mx -> sub x mx ex0 = sub y my ey0 ->
   exists ex ey, expand_fwd fuel x y ex0 ey0 = Ok (ex, ey) /\
-    ex0 <= ex /\ ex <= length x /\ ey0 <= ey /\ ey <= length y /\ ex - mx = ey - my /\
+    ex0 <= ex /\ ex <= length x /\ ey0 <= ey /\ ey <= length y /\ ex + my = ey + mx /\
     sub x mx ex = sub y my ey.
 Proof.
   induction fuel as [|fu IH]; intros ex0 ey0 mx my Hf H1 H2 H3 H4 H5 H6.
@@ -200,14 +200,14 @@ Definition P (dx dy : nat) (ms : list (nat * nat)) : Prop :=
 (* a later anchor that is not inside the common run starting at (mx,my) lies beyond it on the y
    side as well *)
 Lemma anchor_beyond mx my ex ey m' :
-  mx <= ex -> ex - mx = ey - my -> sub x mx ex = sub y my ey ->
+  mx <= ex -> ex + my = ey + mx -> sub x mx ex = sub y my ey ->
   le2 (mx, my) m' -> anchor m' -> ex <= fst m' -> ey <= snd m'.
 Proof.
   intros H1 H2 H3 [L1 L2] (A1 & A2 & A3 & A4) H4. simpl in *.
   destruct (Nat.le_gt_cases ey (snd m')) as [|Hlt]; [assumption|exfalso].
   set (d := snd m' - my).
   assert (Hd : d < ex - mx) by (unfold d; lia).
-  pose proof (sub_eq_nth x y mx ex my ey d H3 H2 Hd) as E.
+  pose proof (sub_eq_nth x y mx ex my ey d H3 ltac:(lia) Hd) as E.
   replace (my + d) with (snd m') in E by (unfold d; lia).
   rewrite <- A3 in E. apply A4 in E. lia.
 Qed.
@@ -225,7 +225,7 @@ Qed.
 
 Lemma P_step dx dy mx my ms ex ey :
   P dx dy ((mx, my) :: ms) -> ms <> [] ->
-  mx <= ex -> ex - mx = ey - my -> sub x mx ex = sub y my ey -> ey <= length y ->
+  mx <= ex -> ex + my = ey + mx -> sub x mx ex = sub y my ey -> ey <= length y ->
   P ex ey ms.
 Proof.
   intros (_ & Hl & Hf & Hs & Hm) Hne H1 H2 H3 H4.
@@ -247,21 +247,42 @@ Qed.
 Definition Inv (e0x e0y dx dy chx chy cntx cnty : nat) (ctext : list (tag * line)) : Prop :=
   dx <= length x /\ dy <= length y /\
   e0x <= chx /\ chx <= dx /\ e0y <= chy /\ chy <= dy /\
-  chx - e0x = chy - e0y /\ sub x e0x chx = sub y e0y chy /\
+  chx + e0y = chy + e0x /\ sub x e0x chx = sub y e0y chy /\
   old_side ctext = sub x chx dx /\ new_side ctext = sub y chy dy /\
-  cntx = dx - chx /\ cnty = dy - chy.
+  cntx + chx = dx /\ cnty + chy = dy.
 
 Lemma Inv_intro e0x e0y dx dy chx chy cntx cnty ctext :
   dx <= length x -> dy <= length y ->
   e0x <= chx -> chx <= dx -> e0y <= chy -> chy <= dy ->
-  chx - e0x = chy - e0y -> sub x e0x chx = sub y e0y chy ->
+  chx + e0y = chy + e0x -> sub x e0x chx = sub y e0y chy ->
   old_side ctext = sub x chx dx -> new_side ctext = sub y chy dy ->
-  cntx = dx - chx -> cnty = dy - chy ->
+  cntx + chx = dx -> cnty + chy = dy ->
   Inv e0x e0y dx dy chx chy cntx cnty ctext.
 Proof. unfold Inv. intuition. Qed.
 
 Lemma sub_empty_eq (l : list line) a b : a <= b -> b <= length l -> sub l a b = [] -> a = b.
 Proof. intros H1 H2 E. apply (f_equal (@length _)) in E. rewrite sub_length in E by lia. simpl in E. lia. Qed.
+
+Lemma bind_ok_exists {A B} (e : res A) (f : A -> res B) (Q : A -> Prop) (R : B -> Prop) :
+  (exists a, e = Ok a /\ Q a) -> (forall a, Q a -> exists b, f a = Ok b /\ R b) ->
+  exists b, bind e f = Ok b /\ R b.
+Proof. intros (a & -> & Ha) Hf. simpl. apply Hf. assumption. Qed.
+
+(* sub-runs of equal runs, with all side conditions additive *)
+Lemma run_sub a b c d a' b' c' d' :
+  sub x a b = sub y c d -> a <= a' -> a' <= b' -> b' <= b -> b <= length x -> d <= length y ->
+  b + c = d + a -> a' + c = c' + a -> b' + c = d' + a ->
+  sub x a' b' = sub y c' d'.
+Proof.
+  intros E H1 H2 H3 H4 H5 H6 H7 H8.
+  pose proof (sub_eq_mono x y a b c d (a' - a) (b' - a) E) as F.
+  replace (a + (a' - a)) with a' in F by lia. replace (a + (b' - a)) with b' in F by lia.
+  replace (c + (a' - a)) with c' in F by lia. replace (c + (b' - a)) with d' in F by lia.
+  apply F; lia.
+Qed.
+
+Lemma pos_of_if p c : (if 0 <? c then S p else p) = pos_of p c.
+Proof. unfold pos_of. destruct c; reflexivity. Qed.
 
 Lemma diff_loop_ok : forall ms e0x e0y dx dy chx chy cntx cnty ctext,
   Inv e0x e0y dx dy chx chy cntx cnty ctext -> P dx dy ms ->
@@ -286,9 +307,14 @@ Proof.
   (* the whole common run *)
   assert (R : sub x stx ex = sub y sty ey).
   { rewrite <- (sub_app x stx mx ex), <- (sub_app y sty my ey) by lia. congruence. }
-  assert (Rl : ex - stx = ey - sty) by lia.
   unfold sub_chk. destruct (Nat.ltb_spec ex stx) as [|_]; [lia|]. simpl.
   rewrite !sub_length by lia.
+  (* name the three differences; from here on the arithmetic is additive *)
+  set (d1 := stx - dx). assert (Hd1 : stx = dx + d1) by (unfold d1; lia). clearbody d1.
+  set (d2 := sty - dy). assert (Hd2 : sty = dy + d2) by (unfold d2; lia). clearbody d2.
+  set (r := ex - stx). assert (Hr : ex = stx + r) by (unfold r; lia). clearbody r.
+  assert (Hr' : ey = sty + r) by lia.
+  clear Eb Ef B6 F6 B5 F5.
   set (ctext2 := ctext ++ tagged TDel (sub x dx stx) ++ tagged TAdd (sub y dy sty)).
   assert (O2 : old_side ctext2 = sub x chx stx).
   { unfold ctext2. rewrite !old_side_app, old_side_del, old_side_add, app_nil_r, I9.
@@ -296,11 +322,13 @@ Proof.
   assert (N2 : new_side ctext2 = sub y chy sty).
   { unfold ctext2. rewrite !new_side_app, new_side_del, new_side_add, I10. simpl.
     apply sub_app; lia. }
+  clearbody ctext2.
   destruct (((ex <? length x) || (ey <? length y)) &&
-            ((ex - stx <? ctxC) || (nonempty ctext2 && (ex - stx <? ctxC + (ctxC + 0))))) eqn:Ebr.
+            ((r <? ctxC) || (nonempty ctext2 && (r <? ctxC + (ctxC + 0))))) eqn:Ebr.
   - (* the chunk continues *)
     apply andb_true_iff in Ebr as [Eeof _].
     rewrite (slice_ok x stx ex) by lia. simpl. rewrite sub_length by lia.
+    replace (ex - stx) with r by lia.
     assert (Hne : ms <> []).
     { intro; subst ms. destruct HP as (_ & Hl & _). simpl in Hl. inversion Hl; subst mx my.
       apply orb_true_iff in Eeof as [E | E]; apply Nat.ltb_lt in E; lia. }
@@ -308,89 +336,89 @@ Proof.
     + apply Inv_intro; try lia; try assumption.
       * rewrite old_side_app, old_side_ctx, O2. apply sub_app; lia.
       * rewrite new_side_app, new_side_ctx, N2, R. apply sub_app; lia.
-    + eapply P_step; eauto.
+    + apply (P_step dx dy mx my); auto; lia.
   - (* the chunk ends here *)
     assert (Hbr : (length x <= ex /\ length y <= ey) \/
-                  (ctxC <= ex - stx /\ (ctext2 = [] \/ 2 * ctxC <= ex - stx))).
+                  (ctxC <= r /\ (ctext2 = [] \/ ctxC + ctxC <= r))).
     { apply andb_false_iff in Ebr as [E | E].
       - left. apply orb_false_iff in E as [E1 E2]. apply Nat.ltb_ge in E1, E2. lia.
       - right. apply orb_false_iff in E as [E1 E2]. apply Nat.ltb_ge in E1. split; [assumption|].
         apply andb_false_iff in E2 as [E2 | E2].
         + left. apply nonempty_false. assumption.
-        + right. apply Nat.ltb_ge in E2. assumption. }
+        + right. apply Nat.ltb_ge in E2. lia. }
+    clear Ebr.
+    (* the step into the rest of the loop after a possible new chunk, from a ghost position *)
+    assert (Hnext : forall g0x g0y c0 (ct0 : list (tag * line)),
+       (ct0 = [] /\ c0 = 0 /\ stx <= g0x /\ g0x + sty = g0y + stx /\
+        (length x <= ex -> length y <= ey -> g0x <= ex) /\
+        (~ (length x <= ex /\ length y <= ey) -> g0x + ctxC <= ex)) ->
+       exists rest,
+        (if (length x <=? ex) && (length y <=? ey) then Ok []
+         else do chx' <- (if ex <? ctxC then Panic else Ok (ex - ctxC));
+              do chy' <- (if ey <? ctxC then Panic else Ok (ey - ctxC));
+              do xs4 <- slice x chx' ex;
+              diff_loop x y ms ex ey chx' chy' (c0 + length xs4) (c0 + length xs4)
+                        (ct0 ++ tagged TCtx xs4)) = Ok rest /\
+        hunks_rel g0x g0y (skipn g0x x) (skipn g0y y) rest).
+    { intros g0x g0y c0 ct0 (-> & -> & G1 & G2 & G3 & G4).
+      destruct ((length x <=? ex) && (length y <=? ey)) eqn:Eeof.
+      - apply andb_true_iff in Eeof as [E1 E2]. apply Nat.leb_le in E1, E2.
+        specialize (G3 E1 E2).
+        exists []. split; [reflexivity|]. simpl.
+        assert (ex = length x) by lia. assert (ey = length y) by lia.
+        rewrite <- (sub_full x), <- (sub_full y).
+        apply (run_sub stx ex sty ey); try lia; try assumption.
+      - assert (Hneof : ~ (length x <= ex /\ length y <= ey)).
+        { intros [E1 E2]. apply Nat.leb_le in E1, E2. rewrite E1, E2 in Eeof. discriminate. }
+        specialize (G4 Hneof).
+        destruct (Nat.ltb_spec ex ctxC); [lia|]. destruct (Nat.ltb_spec ey ctxC); [lia|]. simpl.
+        set (c1 := ex - ctxC). assert (Hc1 : ex = c1 + ctxC) by (unfold c1; lia). clearbody c1.
+        set (c2 := ey - ctxC). assert (Hc2 : ey = c2 + ctxC) by (unfold c2; lia). clearbody c2.
+        rewrite (slice_ok x c1 ex) by lia. simpl. rewrite sub_length by lia.
+        assert (Hne : ms <> []).
+        { intro; subst ms. destruct HP as (_ & Hl & _). simpl in Hl. inversion Hl; subst mx my.
+          apply Hneof. lia. }
+        apply IH.
+        + apply Inv_intro; try lia.
+          * apply (run_sub stx ex sty ey); try lia; try assumption.
+          * rewrite old_side_ctx. reflexivity.
+          * rewrite new_side_ctx. apply (run_sub stx ex sty ey); try lia; try assumption.
+        + apply (P_step dx dy mx my); auto; lia. }
     destruct (nonempty ctext2) eqn:Ene.
     + (* emit a hunk *)
-      set (n := Nat.min (ex - stx) ctxC).
-      assert (Hn : n <= ex - stx) by (unfold n; lia).
+      set (n := Nat.min r ctxC).
+      assert (Hn : n <= r) by (unfold n; lia).
+      assert (Hn' : ~ (length x <= ex /\ length y <= ey) -> n = ctxC /\ ctxC + ctxC <= r).
+      { intro Hneof. destruct Hbr as [Hbr | (Hc & Hbr)]; [contradiction|].
+        destruct Hbr as [Hbr | Hbr]; [rewrite Hbr in Ene; discriminate|]. unfold n. lia. }
+      clearbody n.
       rewrite (slice_ok x stx (stx + n)) by lia. simpl. rewrite sub_length by lia.
+      replace (stx + n - stx) with n by lia.
       set (ctext' := ctext2 ++ tagged TCtx (sub x stx (stx + n))).
       assert (O3 : old_side ctext' = sub x chx (stx + n)).
       { unfold ctext'. rewrite old_side_app, old_side_ctx, O2. apply sub_app; lia. }
       assert (N3 : new_side ctext' = sub y chy (sty + n)).
       { unfold ctext'. rewrite new_side_app, new_side_ctx, N2.
-        pose proof (sub_eq_mono x y stx ex sty ey 0 n R) as E.
-        rewrite !Nat.add_0_r in E. rewrite E by lia. apply sub_app; lia. }
-      (* the rest of the loop, from the ghost position (stx+n, sty+n) *)
-      assert (Hrest : exists rest,
-        (if (length x <=? ex) && (length y <=? ey) then Ok []
-         else do chx' <- (if ex <? ctxC then Panic else Ok (ex - ctxC));
-              do chy' <- (if ey <? ctxC then Panic else Ok (ey - ctxC));
-              do xs4 <- slice x chx' ex;
-              diff_loop x y ms ex ey chx' chy' (0 + length xs4) (0 + length xs4)
-                        ([] ++ tagged TCtx xs4)) = Ok rest /\
-        hunks_rel (stx + n) (sty + n) (skipn (stx + n) x) (skipn (sty + n) y) rest).
-      { destruct ((length x <=? ex) && (length y <=? ey)) eqn:Eeof.
-        - apply andb_true_iff in Eeof as [E1 E2]. apply Nat.leb_le in E1, E2.
-          exists []. split; [reflexivity|]. simpl.
-          assert (ex = length x) by lia. assert (ey = length y) by lia. subst ex ey.
-          rewrite <- (sub_full x), <- (sub_full y).
-          pose proof (sub_eq_mono x y stx (length x) sty (length y) n (length x - stx) R) as E.
-          replace (stx + (length x - stx)) with (length x) in E by lia.
-          replace (sty + (length x - stx)) with (length y) in E by lia.
-          apply E; lia.
-        - assert (Hneof : ~ (length x <= ex /\ length y <= ey)).
-          { intros [E1 E2]. apply Nat.leb_le in E1, E2. rewrite E1, E2 in Eeof. discriminate. }
-          destruct Hbr as [Hbr | (Hc & Hbr)]; [contradiction|].
-          destruct Hbr as [Hbr | Hbr]; [rewrite Hbr in Ene; discriminate|].
-          assert (n = ctxC) by (unfold n; lia).
-          destruct (Nat.ltb_spec ex ctxC); [lia|]. destruct (Nat.ltb_spec ey ctxC); [lia|]. simpl.
-          rewrite (slice_ok x (ex - ctxC) ex) by lia. simpl. rewrite sub_length by lia.
-          assert (Hne : ms <> []).
-          { intro; subst ms. destruct HP as (_ & Hl & _). simpl in Hl. inversion Hl; subst mx my.
-            apply Hneof. lia. }
-          apply IH.
-          + apply Inv_intro; try lia.
-            * pose proof (sub_eq_mono x y stx ex sty ey n (ex - stx - ctxC) R) as E.
-              replace (stx + (ex - stx - ctxC)) with (ex - ctxC) in E by lia.
-              replace (sty + (ex - stx - ctxC)) with (ey - ctxC) in E by lia.
-              apply E; lia.
-            * rewrite old_side_ctx. reflexivity.
-            * rewrite new_side_ctx.
-              pose proof (sub_eq_mono x y stx ex sty ey (ex - stx - ctxC) (ex - stx) R) as E.
-              replace (stx + (ex - stx - ctxC)) with (ex - ctxC) in E by lia.
-              replace (sty + (ex - stx - ctxC)) with (ey - ctxC) in E by lia.
-              replace (stx + (ex - stx)) with ex in E by lia.
-              replace (sty + (ex - stx)) with ey in E by lia.
-              apply E; lia.
-          + eapply P_step; eauto. }
-      destruct Hrest as (rest & Er & Hr). rewrite Er. simpl.
-      eexists. split; [reflexivity|]. simpl.
-      exists (sub x e0x chx), (skipn (stx + n) x), (skipn (sty + n) y).
-      rewrite O3, N3, !sub_length by lia.
-      replace (dx - chx + (stx - dx) + n) with (stx + n - chx) by lia.
-      replace (dy - chy + (sty - dy) + n) with (sty + n - chy) by lia.
-      assert (Z1 : forall c, (if 0 <? c then S chx else chx) = pos_of chx c).
-      { intro c. unfold pos_of. destruct c; reflexivity. }
-      assert (Z2 : forall c, (if 0 <? c then S chy else chy) = pos_of chy c).
-      { intro c. unfold pos_of. destruct c; reflexivity. }
-      rewrite Z1, Z2.
-      replace (e0x + (chx - e0x)) with chx by lia.
-      replace (e0y + (chx - e0x)) with chy by lia.
-      replace (chx + (stx + n - chx)) with (stx + n) by lia.
-      replace (chy + (sty + n - chy)) with (sty + n) by lia.
-      split; [|split; [|split; [reflexivity|split; [reflexivity|split; [reflexivity|split; [reflexivity|exact Hr]]]]]].
-      * rewrite app_assoc, (sub_app x e0x chx (stx + n)) by lia. apply skipn_sub; lia.
-      * rewrite I8, app_assoc, (sub_app y e0y chy (sty + n)) by lia. apply skipn_sub; lia.
+        rewrite (run_sub stx ex sty ey stx (stx + n) sty (sty + n)); try lia; try assumption.
+        apply sub_app; lia. }
+      clearbody ctext'.
+      apply bind_ok_exists with
+        (Q := fun rest => hunks_rel (stx + n) (sty + n) (skipn (stx + n) x) (skipn (sty + n) y) rest).
+      * apply (Hnext (stx + n) (sty + n) 0 []).
+        repeat (split; [reflexivity || lia|]). split; [lia|].
+        intro Hneof. apply Hn' in Hneof. lia.
+      * intros rest Hrel. eexists. split; [reflexivity|]. simpl.
+        exists (sub x e0x chx), (skipn (stx + n) x), (skipn (sty + n) y).
+        rewrite O3, N3, !sub_length by lia. rewrite !pos_of_if.
+        replace (e0x + (chx - e0x)) with chx by lia.
+        replace (e0y + (chx - e0x)) with chy by lia.
+        replace (stx + n - chx) with (cntx + d1 + n) by lia.
+        replace (sty + n - chy) with (cnty + d2 + n) by lia.
+        replace (chx + (cntx + d1 + n)) with (stx + n) by lia.
+        replace (chy + (cnty + d2 + n)) with (sty + n) by lia.
+        split; [|split; [|split; [reflexivity|split; [reflexivity|split; [reflexivity|split; [reflexivity|exact Hrel]]]]]].
+        -- rewrite app_assoc, (sub_app x e0x chx (stx + n)) by lia. apply skipn_sub; lia.
+        -- rewrite I8, app_assoc, (sub_app y e0y chy (sty + n)) by lia. apply skipn_sub; lia.
     + (* nothing to emit: ctext2 is empty, so done = start = chunk *)
       simpl.
       apply nonempty_false in Ene.
@@ -398,46 +426,29 @@ Proof.
       { apply (sub_empty_eq x); try lia. rewrite <- O2, Ene. reflexivity. }
       assert (chy = sty).
       { apply (sub_empty_eq y); try lia. rewrite <- N2, Ene. reflexivity. }
-      assert (dx = stx) by lia. assert (dy = sty) by lia. subst chx chy.
-      replace (stx - dx) with 0 by lia. replace (sty - dy) with 0 by lia.
-      rewrite Ene.
-      destruct ((length x <=? ex) && (length y <=? ey)) eqn:Eeof.
-      * apply andb_true_iff in Eeof as [E1 E2]. apply Nat.leb_le in E1, E2. simpl.
-        exists []. split; [reflexivity|]. simpl.
-        assert (ex = length x) by lia. assert (ey = length y) by lia. subst ex ey.
-        rewrite (skipn_sub x e0x stx), (skipn_sub y e0y sty) by lia.
-        rewrite <- (sub_full x stx), <- (sub_full y sty). congruence.
-      * assert (Hneof : ~ (length x <= ex /\ length y <= ey)).
-        { intros [E1 E2]. apply Nat.leb_le in E1, E2. rewrite E1, E2 in Eeof. discriminate. }
-        destruct Hbr as [Hbr | (Hc & _)]; [contradiction|].
-        destruct (Nat.ltb_spec ex ctxC); [lia|]. destruct (Nat.ltb_spec ey ctxC); [lia|]. simpl.
-        rewrite (slice_ok x (ex - ctxC) ex) by lia. simpl. rewrite sub_length by lia.
-        assert (Hne : ms <> []).
-        { intro; subst ms. destruct HP as (_ & Hl & _). simpl in Hl. inversion Hl; subst mx my.
-          apply Hneof. lia. }
-        assert (Hrec : exists hs,
-          diff_loop x y ms ex ey (ex - ctxC) (ey - ctxC) (dx - stx + 0 + (ex - (ex - ctxC)))
-            (dy - sty + 0 + (ex - (ex - ctxC))) ([] ++ tagged TCtx (sub x (ex - ctxC) ex)) = Ok hs /\
-          hunks_rel e0x e0y (skipn e0x x) (skipn e0y y) hs).
-        { apply IH.
-          + apply Inv_intro; try lia.
-            * rewrite <- (sub_app x e0x stx (ex - ctxC)), <- (sub_app y e0y sty (ey - ctxC)) by lia.
-              rewrite I8. f_equal.
-              pose proof (sub_eq_mono x y stx ex sty ey 0 (ex - stx - ctxC) R) as E.
-              rewrite !Nat.add_0_r in E.
-              replace (stx + (ex - stx - ctxC)) with (ex - ctxC) in E by lia.
-              replace (sty + (ex - stx - ctxC)) with (ey - ctxC) in E by lia.
-              apply E; lia.
-            * rewrite old_side_ctx. reflexivity.
-            * rewrite new_side_ctx.
-              pose proof (sub_eq_mono x y stx ex sty ey (ex - stx - ctxC) (ex - stx) R) as E.
-              replace (stx + (ex - stx - ctxC)) with (ex - ctxC) in E by lia.
-              replace (sty + (ex - stx - ctxC)) with (ey - ctxC) in E by lia.
-              replace (stx + (ex - stx)) with ex in E by lia.
-              replace (sty + (ex - stx)) with ey in E by lia.
-              apply E; lia.
-          + eapply P_step; eauto. }
-        destruct Hrec as (hs & E & Hh). rewrite E. simpl. exists hs. split; [reflexivity | exact Hh].
+      assert (cntx + d1 = 0) by lia. assert (cnty + d2 = 0) by lia.
+      apply bind_ok_exists with
+        (Q := fun rest => hunks_rel e0x e0y (skipn e0x x) (skipn e0y y) rest).
+      * (* the same ghost position: first move it to (stx, sty), where the gap ends *)
+        destruct (Hnext stx sty (cntx + d1) ctext2) as (rest & Er & Hrel).
+        { repeat (split; [assumption || lia|]). split; [lia|].
+          intro Hneof. destruct Hbr as [Hbr | (Hc & _)]; [contradiction | lia]. }
+        replace (cnty + d2) with (cntx + d1) by lia.
+        exists rest. split; [exact Er|].
+        (* hunks_rel from (e0x,e0y) given hunks_rel from (stx,sty) and the equal gap *)
+        clear - Hrel I8 I3 I5 I7 H H0 I4 I6 I1 I2 B1 B3.
+        subst chx chy.
+        destruct rest as [|h rest]; simpl in *.
+        -- rewrite (skipn_sub x e0x stx), (skipn_sub y e0y sty) by lia. congruence.
+        -- destruct Hrel as (g & xs' & ys' & Hx & Hy & Hcx & Hcy & Hsx & Hsy & Hrr).
+           exists (sub x e0x stx ++ g), xs', ys'.
+           rewrite app_length, sub_length by lia.
+           replace (e0x + (stx - e0x + length g)) with (stx + length g) by lia.
+           replace (e0y + (stx - e0x + length g)) with (sty + length g) by lia.
+           split; [|split; [|split; [assumption|split; [assumption|split; [assumption|split; [assumption|assumption]]]]]].
+           ++ rewrite (skipn_sub x e0x stx), Hx, <- app_assoc by lia. reflexivity.
+           ++ rewrite (skipn_sub y e0y sty), Hy, I8, <- app_assoc by lia. reflexivity.
+      * intros rest Hrel. exists rest. split; [reflexivity | assumption].
 Qed.
 
 End Loop.
